@@ -17,7 +17,11 @@ def gen_knobs(tp, fault_free_pm=250, max_steps=20000, allow_big_lat=True):
                 'stall_pm': 0, 'epoch': 'exact', 'time_yield': False,
                 'fault_free': True, 'max_steps': max_steps}
     lat = tp.choice([0, 1, 2, 3, 3] if allow_big_lat else [0, 1, 2, 4])
+    # a share of the faulty runs also pre-empts at LINE level inside
+    # base/main.py, clock.py, stream.py, _oscinterface.py, responders.py
+    line_mean = tp.choice([0] * 7 + [8, 30, 120])
     return {
+        'line_mean': line_mean,
         'policy': tp.choice(POLICIES),
         'lat': lat,
         'cost': tp.choice([0.0, 5e-6, 50e-6]),
